@@ -62,7 +62,7 @@ Notation Spell := (RoundTrip.Spell P).
 
 Definition LevelS (run: nat -> M P (ParserBase.node P)) (stopk: kind -> bool) (kvs: list (kind * str)) (X: value unit) : Prop :=
   forall (s: pstate) le (stop: tok) l0, Spell le kvs -> Up s (le ++ stop :: l0) -> stopk (tk stop) = true ->
-  exists f0 N s', (forall f, f0 <= f -> run f s = Ok (N, s')) /\ Up s' (stop :: l0) /\ strip N = X.
+  exists f0 N s', (forall f, f0 <= f -> run f s = Ok (N, s')) /\ Up s' (stop :: l0) /\ strip N = X /\ Ran P s s' (length le).
 
 Definition CastS := LevelS (p_cast_expression P) quiet.
 Definition CondS := LevelS (p_conditional_expression P) cstop.
@@ -73,10 +73,10 @@ Definition ExprS := LevelS (p_expression P) estop.
 Lemma cast_to_cond : forall kvs X, CastS kvs X -> CondS kvs X.
 Proof.
   intros kvs X HC s le stop l0 HS HU Hst. destruct (cstop_facts _ Hst) as [Hb Hq]. destruct (bstop_facts _ Hb) as [Hquiet Hprec].
-  destruct (HC s le stop l0 HS HU Hquiet) as [f0 [N [s1 [H1 [HU1 HN]]]]].
-  destruct (peek_up P s1 stop l0 HU1) as [s2 [Hp [HU2 _]]].
-  destruct (accept_miss P s2 stop l0 K_CONDOP HU2 Hq) as [s3 [Ha [HU3 _]]].
-  exists (S (S f0)), N, s3. split; [|split; [exact HU3|exact HN]].
+  destruct (HC s le stop l0 HS HU Hquiet) as [f0 [N [s1 [H1 [HU1 [HN HR1]]]]]].
+  destruct (peek_up P s1 stop l0 HU1) as [s2 [Hp [HU2 HS2]]].
+  destruct (accept_miss P s2 stop l0 K_CONDOP HU2 Hq) as [s3 [Ha [HU3 HS3]]].
+  exists (S (S f0)), N, s3. split; [|split; [exact HU3|split; [exact HN|cost_tac]]].
   intros f Hf. destruct f as [|[|f]]; try lia. rewrite (cond_eq P). unfold bind at 1. rewrite (H1 (S f)) by lia.
   unfold bind at 1. rewrite (climb_eq P). unfold bind at 1. rewrite Hp. rewrite Hprec. unfold ret at 1.
   unfold bind at 1. rewrite Ha. reflexivity.
@@ -93,18 +93,18 @@ Definition asg_body (f: nat) : M P (ParserBase.node P) :=
     | None => ret P e end)).
 
 Lemma asg_pre : forall kvs (s: pstate) le rest, first_ok kvs -> Spell le kvs -> Up s (le ++ rest) ->
-  exists s2, Up s2 (le ++ rest) /\ forall f, p_assignment_expression P (S f) s = asg_body f s2.
+  exists s2, Up s2 (le ++ rest) /\ (forall f, p_assignment_expression P (S f) s = asg_body f s2) /\ Same P s s2.
 Proof.
   intros kvs s le rest [k [v [rest0 [Ek [_ [_ Hlp]]]]]] HS HU. subst kvs.
   destruct (RoundTrip.Spell_cons_inv P _ _ _ _ HS) as [x1 [tl [El [Hk1 [_ HStl]]]]]. subst le. cbn [app] in HU |- *.
-  destruct (peek_kind_up P s x1 _ HU) as [s1 [Hp1 [HU1 _]]].
+  destruct (peek_kind_up P s x1 _ HU) as [s1 [Hp1 [HU1 HS1]]].
   destruct (kind_eqb k K_LPAREN) eqn:Elp.
   - destruct (Hlp eq_refl) as [k2 [v2 [rest2 [-> [Hk2 _]]]]].
     destruct (RoundTrip.Spell_cons_inv P _ _ _ _ HStl) as [x2 [tl2 [-> [Hkx2 [_ _]]]]]. cbn [app] in HU1 |- *.
-    destruct (peek2_up P s1 x1 x2 _ HU1) as [s2 [Hp2 [HU2 _]]]. exists s2. split; [exact HU2|]. intros f.
+    destruct (peek2_up P s1 x1 x2 _ HU1) as [s2 [Hp2 [HU2 HS2]]]. exists s2. split; [exact HU2|]. split; [|exact (Same_trans P _ _ _ HS1 HS2)]. intros f.
     rewrite (assign_eq P). unfold bind at 1. rewrite Hp1. rewrite Hk1. cbn [okind_is]. rewrite Elp.
     unfold bind at 1. unfold bind at 1. rewrite Hp2. unfold ret at 1. cbn [okind_is]. rewrite Hkx2, Hk2. reflexivity.
-  - exists s1. split; [exact HU1|]. intros f. rewrite (assign_eq P). unfold bind at 1. rewrite Hp1. rewrite Hk1. cbn [okind_is]. rewrite Elp.
+  - exists s1. split; [exact HU1|]. split; [|exact HS1]. intros f. rewrite (assign_eq P). unfold bind at 1. rewrite Hp1. rewrite Hk1. cbn [okind_is]. rewrite Elp.
     unfold bind at 1. unfold ret at 1. reflexivity.
 Qed.
 
@@ -112,10 +112,10 @@ Lemma cond_to_asg : forall kvs X, first_ok kvs -> CondS kvs X -> AsgS kvs X.
 Proof.
   intros kvs X Hfo HC s le stop l0 HS HU Hst.
   destruct (astop_facts _ Hst) as [Hcst Hasg].
-  destruct (asg_pre kvs s le (stop :: l0) Hfo HS HU) as [s2 [HU2 Hasn]].
-  destruct (HC s2 le stop l0 HS HU2 Hcst) as [f0 [N [s3 [H3 [HU3 HN]]]]].
-  destruct (peek_up P s3 stop l0 HU3) as [s4 [Hpk [HU4 _]]].
-  exists (S f0), N, s4. split; [|split; [exact HU4|exact HN]].
+  destruct (asg_pre kvs s le (stop :: l0) Hfo HS HU) as [s2 [HU2 [Hasn HS2]]].
+  destruct (HC s2 le stop l0 HS HU2 Hcst) as [f0 [N [s3 [H3 [HU3 [HN HR3]]]]]].
+  destruct (peek_up P s3 stop l0 HU3) as [s4 [Hpk [HU4 HS4]]].
+  exists (S f0), N, s4. split; [|split; [exact HU4|split; [exact HN|cost_tac]]].
   intros f Hf. destruct f as [|f]; [lia|]. rewrite Hasn. unfold asg_body. unfold bind at 1. rewrite (H3 f) by lia.
   unfold bind at 1. rewrite Hpk. rewrite Hasg. reflexivity.
 Qed.
@@ -123,9 +123,9 @@ Qed.
 Lemma asg_to_expr : forall kvs X, AsgS kvs X -> ExprS kvs X.
 Proof.
   intros kvs X HA s le stop l0 HS HU Hst. destruct (estop_facts _ Hst) as [_ [_ [_ Hcomma]]].
-  destruct (HA s le stop l0 HS HU (estop_astop _ Hst)) as [f0 [N [s1 [H1 [HU1 HN]]]]].
-  destruct (accept_miss P s1 stop l0 K_COMMA HU1 Hcomma) as [s2 [Ha [HU2 _]]].
-  exists (S f0), N, s2. split; [|split; [exact HU2|exact HN]].
+  destruct (HA s le stop l0 HS HU (estop_astop _ Hst)) as [f0 [N [s1 [H1 [HU1 [HN HR1]]]]]].
+  destruct (accept_miss P s1 stop l0 K_COMMA HU1 Hcomma) as [s2 [Ha [HU2 HS2]]].
+  exists (S f0), N, s2. split; [|split; [exact HU2|split; [exact HN|cost_tac]]].
   intros f Hf. destruct f as [|f]; [lia|]. rewrite (expr_eq P). unfold bind at 1. rewrite (H1 f) by lia.
   unfold bind at 1. rewrite Ha. reflexivity.
 Qed.
@@ -142,7 +142,9 @@ Proof.
   destruct (RoundTrip.Spell_cons_inv P _ _ _ _ HS3) as [rpt [l4 [-> [Hrp [_ HS4]]]]]. apply (RoundTrip.Spell_nil_inv P) in HS4. subst l4.
   pose proof HSe as HSe0. rewrite Ek in HSe. destruct (RoundTrip.Spell_cons_inv P _ _ _ _ HSe) as [x [le' [-> [Hx [_ _]]]]].
   cbn [app] in HU. rewrite <- app_assoc in HU. cbn [app] in HU.
-  refine (paren_cast P X lp rpt x n le' l _ _ _ Hq _ s HU).
+  assert (Hlen: forall (a b c: tok) l1, length (a :: (b :: l1) ++ [c]) = S (S (S (length l1)))) by (intros; cbn [length app]; rewrite app_length; cbn [length]; lia).
+  rewrite Hlen.
+  refine (paren_cast_c P X lp rpt x n le' l _ _ _ Hq _ s HU).
   - rewrite Hlp. reflexivity.
   - rewrite Hrp. reflexivity.
   - rewrite Hx. exact (proj1 (startk_facts _ Hds)).
@@ -221,62 +223,64 @@ Qed.
 Definition SimC (fu: nat) : Prop := forall m h r T r', climb fu m h r = Some (T, r') -> ROK r ->
   forall (s: pstate) lr stop l0 hN, Spell lr (kv_rest r) -> Up s (lr ++ stop :: l0) -> bstop (tk stop) = true -> strip hN = etree h ->
   ROK r' /\ exists f0 N s' lr', (forall f, f0 <= f -> p_binary_climb P f m hN s = Ok (N, s')) /\
-                               Spell lr' (kv_rest r') /\ Up s' (lr' ++ stop :: l0) /\ strip N = etree T.
+                               Spell lr' (kv_rest r') /\ Up s' (lr' ++ stop :: l0) /\ strip N = etree T /\
+                               idx P s' + length lr' = idx P s + length lr /\ N.to_nat (ticks P s') + 3 * length lr' <= N.to_nat (ticks P s) + 3 * length lr.
 Definition SimI (fu: nat) : Prop := forall p h r T r', inner fu p h r = Some (T, r') -> ROK r ->
   forall (s: pstate) lr stop l0 hN, Spell lr (kv_rest r) -> Up s (lr ++ stop :: l0) -> bstop (tk stop) = true -> strip hN = etree h ->
   ROK r' /\ exists f0 N s' lr', (forall f, f0 <= f -> p_binary_inner P f p hN s = Ok (N, s')) /\
-                               Spell lr' (kv_rest r') /\ Up s' (lr' ++ stop :: l0) /\ strip N = etree T.
+                               Spell lr' (kv_rest r') /\ Up s' (lr' ++ stop :: l0) /\ strip N = etree T /\
+                               idx P s' + length lr' = idx P s + length lr /\ N.to_nat (ticks P s') + 3 * length lr' <= N.to_nat (ticks P s) + 3 * length lr.
 
 Lemma sim : forall fu, SimC fu /\ SimI fu.
 Proof.
   induction fu as [|fu [IHC IHI]]; [split; intros ? ? ? ? ? H; discriminate H|]. split.
   - intros m h r T r' H HR s lr stop l0 hN HS HU Hb Hh. rewrite ClimbComplete.climb_S in H. destruct r as [|[o a] r1].
     + injection H as <- <-. split; [constructor|]. apply (RoundTrip.Spell_nil_inv P) in HS. subst lr. cbn [app] in HU.
-      destruct (peek_up P s stop l0 HU) as [s1 [Hp [HU1 _]]]. destruct (bstop_facts _ Hb) as [_ Hprec].
-      exists 1, hN, s1, []. split; [|split; [reflexivity|split; [exact HU1|exact Hh]]].
+      destruct (peek_up P s stop l0 HU) as [s1 [Hp [HU1 HS1]]]. destruct (bstop_facts _ Hb) as [_ Hprec].
+      exists 1, hN, s1, []. split; [|split; [reflexivity|split; [exact HU1|split; [exact Hh|cost_tac]]]].
       intros f Hf. destruct f as [|f]; [lia|]. rewrite (climb_eq P). unfold bind at 1. rewrite Hp. rewrite Hprec. reflexivity.
     + cbn [kv_rest map concat fst snd] in HS. cbn [app] in HS. destruct (RoundTrip.Spell_cons_inv P _ _ _ _ HS) as [t [lr2 [-> [Hk [Hv HS2]]]]].
       inversion HR as [|x y [Ho HA] HR1]; subst x y. cbn [fst snd] in Ho, HA.
       destruct (opk_facts o Ho) as [Hprec _]. cbn [app] in HU.
-      destruct (peek_up P s t _ HU) as [s1 [Hp [HU1 _]]].
+      destruct (peek_up P s t _ HU) as [s1 [Hp [HU1 HSm1]]].
       destruct (gprec o <? m) eqn:Elt.
-      * injection H as <- <-. split; [exact HR|]. exists 1, hN, s1, (t :: lr2). split; [|split; [|split; [exact HU1|exact Hh]]].
+      * injection H as <- <-. split; [exact HR|]. exists 1, hN, s1, (t :: lr2). split; [|split; [|split; [exact HU1|split; [exact Hh|cost_tac]]]].
         -- intros f Hf. destruct f as [|f]; [lia|]. rewrite (climb_eq P). unfold bind at 1. rewrite Hp. rewrite Hk, Hprec, Elt. reflexivity.
         -- unfold RoundTrip.Spell. cbn [map kv_rest concat fst snd app]. rewrite Hk, Hv. f_equal. exact HS2.
       * destruct (inner fu (gprec o) (Leaf gt str a) r1) as [[rhs r2]|] eqn:EI; [|discriminate H].
         destruct (RoundTrip.Spell_app_inv P _ _ _ HS2) as [la [lr1 [-> [HSa HS1]]]].
-        destruct (advance_up P s1 t _ HU1) as [s2 [Had [HU2 _]]].
+        destruct (advance_up P s1 t _ HU1) as [s2 [Had [HU2 HA2]]].
         destruct (head_quiet r1 lr1 stop l0 HR1 HS1 Hb) as [n [l' [En Hqn]]].
         rewrite <- app_assoc in HU2. rewrite En in HU2.
-        destruct (HA s2 la n l' HSa HU2 Hqn) as [fa [aN [s3 [Hcast [HU3 HaN]]]]].
+        destruct (HA s2 la n l' HSa HU2 Hqn) as [fa [aN [s3 [Hcast [HU3 [HaN HR3]]]]]].
         rewrite <- En in HU3.
-        destruct (IHI _ _ _ _ _ EI HR1 s3 lr1 stop l0 aN HS1 HU3 Hb HaN) as [HR2 [fi [rN [s4 [lr2' [Hin [HS2' [HU4 HrN]]]]]]]].
+        destruct (IHI _ _ _ _ _ EI HR1 s3 lr1 stop l0 aN HS1 HU3 Hb HaN) as [HR2 [fi [rN [s4 [lr2' [Hin [HS2' [HU4 [HrN HP4]]]]]]]]].
         destruct (etree_node h) as [c [fs [co Eh]]]. rewrite Eh in Hh. destruct (strip_node_inv _ _ _ _ _ Hh) as [fs' [co' EhN]].
         set (bN := mkN P C_BinaryOp [VStr (tv t); hN; rN] co').
         assert (HbN: strip bN = etree (Bin gt str o h rhs)).
         { unfold bN, mkN. cbn [strip map etree]. rewrite Hv, HrN. rewrite <- Eh in Hh. rewrite Hh. reflexivity. }
-        destruct (IHC _ _ _ _ _ H HR2 s4 lr2' stop l0 bN HS2' HU4 Hb HbN) as [HR' [fc [N [s5 [lr' [Hcl [HS' [HU5 HN]]]]]]]].
-        split; [exact HR'|]. exists (S (Nat.max fa (Nat.max fi fc))), N, s5, lr'. split; [|split; [exact HS'|split; [exact HU5|exact HN]]].
+        destruct (IHC _ _ _ _ _ H HR2 s4 lr2' stop l0 bN HS2' HU4 Hb HbN) as [HR' [fc [N [s5 [lr' [Hcl [HS' [HU5 [HN HP5]]]]]]]]].
+        split; [exact HR'|]. exists (S (Nat.max fa (Nat.max fi fc))), N, s5, lr'. split; [|split; [exact HS'|split; [exact HU5|split; [exact HN|clear - HSm1 HA2 HR3 HP4 HP5; cost_tac]]]].
         intros f Hf. destruct f as [|f]; [lia|]. rewrite (climb_eq P). unfold bind at 1. rewrite Hp. rewrite Hk, Hprec, Elt.
         unfold bind at 1. rewrite Had. unfold bind at 1. rewrite (Hcast f) by lia. unfold bind at 1. rewrite (Hin f) by lia.
         unfold bind at 1. unfold coordA, lift_opt. rewrite EhN. cbn [get_coord]. unfold ret at 1. rewrite <- EhN. apply Hcl. lia.
   - intros p h r T r' H HR s lr stop l0 hN HS HU Hb Hh. rewrite ClimbComplete.inner_S in H. destruct r as [|[o2 a2] r1].
     + injection H as <- <-. split; [constructor|]. apply (RoundTrip.Spell_nil_inv P) in HS. subst lr. cbn [app] in HU.
-      destruct (peek_up P s stop l0 HU) as [s1 [Hp [HU1 _]]]. destruct (bstop_facts _ Hb) as [_ Hprec].
-      exists 1, hN, s1, []. split; [|split; [reflexivity|split; [exact HU1|exact Hh]]].
+      destruct (peek_up P s stop l0 HU) as [s1 [Hp [HU1 HS1]]]. destruct (bstop_facts _ Hb) as [_ Hprec].
+      exists 1, hN, s1, []. split; [|split; [reflexivity|split; [exact HU1|split; [exact Hh|cost_tac]]]].
       intros f Hf. destruct f as [|f]; [lia|]. rewrite (inner_eq P). unfold bind at 1. rewrite Hp. rewrite Hprec. reflexivity.
     + pose proof HS as HS0. cbn [kv_rest map concat fst snd] in HS. cbn [app] in HS. destruct (RoundTrip.Spell_cons_inv P _ _ _ _ HS) as [t [lr2 [-> [Hk [Hv HS2]]]]].
       inversion HR as [|x y [Ho HA] HR1]; subst x y. cbn [fst snd] in Ho, HA.
       destruct (opk_facts o2 Ho) as [Hprec _]. cbn [app] in HU.
-      destruct (peek_up P s t _ HU) as [s1 [Hp [HU1 _]]].
+      destruct (peek_up P s t _ HU) as [s1 [Hp [HU1 HSm1]]].
       destruct (p <? gprec o2) eqn:Elt.
       * destruct (climb fu (gprec o2) h ((o2, a2) :: r1)) as [[rhs' r2]|] eqn:EC; [|discriminate H].
-        destruct (IHC _ _ _ _ _ EC HR s1 (t :: lr2) stop l0 hN HS0 HU1 Hb Hh) as [HR2 [fc [cN [s2 [lr2' [Hcl [HS2' [HU2 HcN]]]]]]]].
-        destruct (IHI _ _ _ _ _ H HR2 s2 lr2' stop l0 cN HS2' HU2 Hb HcN) as [HR' [fi [N [s3 [lr' [Hin [HS' [HU3 HN]]]]]]]].
-        split; [exact HR'|]. exists (S (Nat.max fc fi)), N, s3, lr'. split; [|split; [exact HS'|split; [exact HU3|exact HN]]].
+        destruct (IHC _ _ _ _ _ EC HR s1 (t :: lr2) stop l0 hN HS0 HU1 Hb Hh) as [HR2 [fc [cN [s2 [lr2' [Hcl [HS2' [HU2 [HcN HP2]]]]]]]]].
+        destruct (IHI _ _ _ _ _ H HR2 s2 lr2' stop l0 cN HS2' HU2 Hb HcN) as [HR' [fi [N [s3 [lr' [Hin [HS' [HU3 [HN HP3]]]]]]]]].
+        split; [exact HR'|]. exists (S (Nat.max fc fi)), N, s3, lr'. split; [|split; [exact HS'|split; [exact HU3|split; [exact HN|clear - HSm1 HP2 HP3; cost_tac]]]].
         intros f Hf. destruct f as [|f]; [lia|]. rewrite (inner_eq P). unfold bind at 1. rewrite Hp. rewrite Hk, Hprec, Elt.
         unfold bind at 1. rewrite (Hcl f) by lia. apply Hin. lia.
-      * injection H as <- <-. split; [exact HR|]. exists 1, hN, s1, (t :: lr2). split; [|split; [exact HS0|split; [exact HU1|exact Hh]]].
+      * injection H as <- <-. split; [exact HR|]. exists 1, hN, s1, (t :: lr2). split; [|split; [exact HS0|split; [exact HU1|split; [exact Hh|cost_tac]]]].
         intros f Hf. destruct f as [|f]; [lia|]. rewrite (inner_eq P). unfold bind at 1. rewrite Hp. rewrite Hk, Hprec, Elt. reflexivity.
 Qed.
 
@@ -354,12 +358,12 @@ Proof.
   destruct Hclimb as [fu Hclimb].
   destruct (head_quiet _ lr stop l0 Hrs HSr Hb) as [nq [lq [Enq Hnq]]].
   rewrite <- app_assoc in HU. rewrite Enq in HU.
-  destruct (Hhd s la nq lq HSa HU Hnq) as [fa [aN [s2 [Hcast [HU2 HaN]]]]]. rewrite <- Enq in HU2.
+  destruct (Hhd s la nq lq HSa HU Hnq) as [fa [aN [s2 [Hcast [HU2 [HaN HR2]]]]]]. rewrite <- Enq in HU2.
   destruct (sim fu) as [HC _].
-  destruct (HC _ _ _ _ _ Hclimb Hrs s2 lr stop l0 aN HSr HU2 Hb HaN) as [_ [fc [N [s3 [lr' [Hcl [HS' [HU3 HN]]]]]]]].
+  destruct (HC _ _ _ _ _ Hclimb Hrs s2 lr stop l0 aN HSr HU2 Hb HaN) as [_ [fc [N [s3 [lr' [Hcl [HS' [HU3 [HN HP3]]]]]]]]].
   apply (RoundTrip.Spell_nil_inv P) in HS'. subst lr'. cbn [app] in HU3.
-  destruct (accept_miss P s3 stop l0 K_CONDOP HU3 Hcond) as [s4 [Hq [HU4 _]]].
-  exists (S (Nat.max fa fc)), N, s4. split; [|split; [exact HU4|rewrite HN; apply etree_skel]].
+  destruct (accept_miss P s3 stop l0 K_CONDOP HU3 Hcond) as [s4 [Hq [HU4 HS4]]].
+  exists (S (Nat.max fa fc)), N, s4. split; [|split; [exact HU4|split; [rewrite HN; apply etree_skel|clear - HR2 HP3 HS4; cost_tac]]].
   intros f Hf. destruct f as [|f]; [lia|]. rewrite (cond_eq P).
   unfold bind at 1. rewrite (Hcast f) by lia. unfold bind at 1. rewrite (Hcl f) by lia. unfold bind at 1. rewrite Hq. reflexivity.
 Qed.
